@@ -3,7 +3,7 @@ every execution (cache=False) and read an execution counter, and File results ed
 CALLS records every task body that ran; WORLD is the state of the outside world."""
 import os
 
-from redun import File, task
+from redun import File, Handle, task
 
 redun_namespace = "rvc28"
 CALLS = []
@@ -75,9 +75,36 @@ def via_subrun(x):
     return subrun(const(x), executor="default", new_execution=False)
 
 
+class Conn(Handle):
+    """a Handle passed from task to task: each job hashes its arguments AFTER the handle was forked for it"""
+
+    def __init__(self, name, namespace=None):
+        self.instance = name
+
+
+@task(version="1")
+def h_load(conn, x):
+    CALLS.append("h_load")
+    return conn
+
+
+@task(version="1")
+def h_count(conn, x):
+    CALLS.append("h_count")
+    return x * 10
+
+
+@task(version="1")
+def handles(x):
+    """a handle threaded through two tasks and used by a third"""
+    CALLS.append("handles")
+    conn = Conn(f"conn{x}")
+    return h_count(h_load(h_load(conn, x), x + 1), x)
+
+
 def build(kind, arg, depth, wraps=("wrap_full",)):
     """kind 'stamp' | 'report' | 'const' | 'subrun'; depth = number of wrapping tasks (kinds cycle through wraps)."""
     if depth <= 0:
-        return {"stamp": stamp, "report": report, "const": const, "subrun": via_subrun}[kind](arg)
+        return {"stamp": stamp, "report": report, "const": const, "subrun": via_subrun, "handles": handles}[kind](arg)
     w = {"wrap_full": wrap_full, "wrap_shallow": wrap_shallow}[wraps[depth % len(wraps)]]
     return w(kind, arg, depth)
